@@ -8,9 +8,12 @@ Ties        : K  random DAG programs over real ops (<= 2-element integer-valued 
               K  the recorded arena (`_children`, requires_grad, grad_fn) vs the wrapper contract [op_node]
 Oracle      : exact forward-mode AD over Fractions on the recorded program; closure-call counts; the same program with
               independent branches built in another order gives the same leaf gradients.
+              Oracle-only stream (lib/engine_sweep.py): random DAG programs over the broad op catalogue (tensor + nn ops, rank 1-4
+              float64) mirrored op by op in PyTorch: leaf grads, None-ness, one call per closure, construction-order independence.
 """
 import json
 from lib import engine_k as K
+from lib import engine_sweep as W
 
 SITE = "tensor.Tensor.backward"
 
@@ -104,6 +107,65 @@ def interesting(E):
     return any(v >= 2 for v in parents.values()) and bool(last) and len(last[-1]["log"]) >= 3
 
 
+def sweep(ctx, failures):
+    """Oracle-only stream: random DAG programs over the broad catalogue of real tensor and nn ops (rank 1-4, float64), mirrored
+    op by op in PyTorch; see lib/engine_sweep.py for the four clauses that are judged."""
+    rng = ctx.rng
+    want = 150 if ctx.quick else 2000
+    n = rejected = reordered = 0
+    ops, structures, crashed = {}, set(), []
+    while n < want and rejected < 20 * want:
+        prog = W.gen_program(rng)
+        try:
+            R = W.execute(prog)
+        except W.Reject:
+            rejected += 1
+            continue
+        except Exception as ex:            # an op of the catalogue raised on a well-formed program
+            v = {"clause": "program runs", "error": "%s: %s" % (type(ex).__name__, str(ex)[:200])}
+            crashed.append((prog, v))
+            n += 1
+            continue
+        n += 1
+        prog = dict(prog, root=R.root, pre_root=R.pre_root, pre=R.pre_root is not None)
+        for st in prog["steps"]:
+            if st["k"] == "op":
+                ops[st["op"]] = ops.get(st["op"], 0) + 1
+        structures.add(repr([(st.get("op"), st.get("args")) for st in prog["steps"]]))
+        v = W.judge(prog, R)
+        if v is None:
+            try:
+                v, did = W.judge_reorder(prog, R, rng)
+                reordered += 1 if did else 0
+            except W.Reject:
+                v = None
+        if v:
+            failures.append((prog, v))
+    # a crash is only reported if nothing more specific failed
+    if not failures and crashed:
+        failures.extend(crashed[:1])
+    mism = []
+    if failures:
+        prog, v = min(failures, key=lambda t: len(t[0]["steps"]))
+        clause = v.get("clause")
+
+        def same(p):
+            x = W.fails(p)
+            return x if (x and x.get("clause") == clause) else None
+        small = W.shrink(prog, same) if clause and "order" not in clause and clause != "program runs" else prog
+        v2 = W.fails(small) or v
+        failures[:] = [(small, v2)]
+        mism = [{"program": W.describe(small), "verdict": v2, "failing_programs": len(failures)}]
+    ctx.tie("catalogue sweep vs PyTorch (oracle only)", "oracle-sweep", n, len(structures), mism,
+            note="random DAG programs (depth<=10, <=30 nodes, fan-out<=4, shared and repeated operands, multi-output unbind, mixed requires_grad, "
+                 "segments under no_grad) over %d real ops on float64 tensors of rank 1-4, mirrored op by op in PyTorch; judged: leaf grads == torch "
+                 "(rtol 1e-9), None exactly where torch has None, no grad on non-requiring leaves, each closure exactly once and exactly the reachable "
+                 "ones, %d programs rebuilt in another construction order (rtol 1e-12); %d draws rejected (kink/tie/range); op usage: %s"
+                 % (len(ops), reordered, rejected, json.dumps(dict(sorted(ops.items())))))
+    ctx.extra["sweep_programs"] = n
+    ctx.extra["sweep_ops"] = ops
+
+
 def run(ctx):
     rng = ctx.rng
     ctx.build_props(extra_targets=["Engine/History.vo"])
@@ -173,8 +235,15 @@ def run(ctx):
         if g1 != g2:
             oracle_fail.append((alt, {"problem": "leaf gradients depend on the construction order", "original_order": K.describe(steps),
                                        "grads_original": g1, "grads_reordered": g2}))
+    # ---- oracle-only stream over the broad op catalogue, mirrored in PyTorch (no Coq model involved) -----------
+    sweep(ctx, oracle_fail_sweep := [])
     ctx.extra["oracle_programs_judged"] = len(execs)
     ctx.extra["oracle_reordered_programs"] = tried
+    if oracle_fail_sweep:
+        prog, v = oracle_fail_sweep[0]
+        ctx.witness(SITE, "chain-rule/catalogue", {"sweep_program": prog, "program": W.describe(prog)},
+                    "every leaf's .grad equals the gradient of the composed function (PyTorch mirror, rtol 1e-9), None where it does not require grad "
+                    "or is not reached; each closure exactly once; independent of construction order", v)
     if oracle_fail:
         steps, v = min(oracle_fail, key=lambda t: len(t[0]))
         ctx.witness(SITE, "chain-rule", {"steps": steps, "program": K.describe(steps)},
@@ -189,6 +258,12 @@ FINISH = dict(rule="random programs from a seeded generator plus 10 hand-written
 def replay(ctx, data):
     if data.get("kind") != "failing-input":
         print(json.dumps(data.get("broken"), indent=1)); return 1
+    if "sweep_program" in data["input"]:
+        prog = data["input"]["sweep_program"]
+        v = W.fails(prog)
+        print("\n".join(W.describe(prog)))
+        print("oracle verdict:", v)
+        return 1 if v else 0
     steps = data["input"]["steps"]
     E = K.execute(steps)
     v = K.oracle_judge(E) or K.oracle_call_counts(E)
